@@ -14,7 +14,9 @@ import (
 //	producer <proto> <retry-max> <seed> <n> <events|->
 //
 // events (applied just before message k is handed over): c<k> sink closes the connection,
-// r<k> sink resets it (tcp), d<k> sink closes it and stops listening, u<k> sink listens again.
+// r<k> sink resets it (tcp), d<k> sink closes it and stops listening, u<k> sink listens again,
+// s<k> (unix, tcp) message k is larger than the socket buffers, the sink stalls until the producer is
+// blocked in the middle of writing it and then closes / resets the connection.
 func init() {
 	kinds["producer"] = &kind{gen: genProducer, run: nil}
 }
@@ -46,8 +48,11 @@ func genProducer(r *rand.Rand, n int, w *bufio.Writer) {
 				case proto == "udp":
 					c = 'd'
 				default:
-					c = "ccdr"[r.Intn(4)]
+					c = "ccdrs"[r.Intn(5)]
 					if c == 'r' && proto != "tcp" {
+						c = 'c'
+					}
+					if c == 's' && nm > 60 {
 						c = 'c'
 					}
 				}
